@@ -10,10 +10,11 @@
     Clusters, TreeBandit with UCB1 / ThompsonSampling - from the same state and generator, row by row, predict's arm is
     the first arg-max of predict_expectations' dictionary, or the dictionary is all-NaN (empty neighbourhood: the
     property's exception), and both calls leave the generator in the same position.  TreeBandit + EpsilonGreedy is the
-    excluded combination (its exploration step exists only inside predict); with epsilon = 0 it is covered by the
+    excluded combination (its exploration step exists only inside predict); Radius / LSHNearest whose no_nhood_prob_of_arm list no longer matches the arm
+    list are excluded too (finding D24: predict raises on an empty neighbourhood where predict_expectations answers); with epsilon = 0 it is covered by the
     deep-copy twin relation on the implementation. *)
 From Coq Require Import List ZArith Bool Arith QArith Qcanon Permutation.
-From MW Require Import Num Assoc AssocFacts Rng Par CF CFInv CFClean CFForget CFSpec Matrix Lin Warm WarmInv Nbr NbrFacts NbrIndep LshFacts Clu Tree CellFacts Mab FacadeCF FacadeArms MoreFacts NumLaws CFAlg Sim Extra QcInst OrderFacts ExpIrrel LinInv FacadeLin LpInv NbrInv CluTreeInv FacadeAll ToyFacts C09All C10All LinForget LinSim MatrixFacts LinSpec.
+From MW Require Import Num Assoc AssocFacts Rng Par CF CFInv CFClean CFForget CFSpec Matrix Lin Warm WarmInv Nbr NbrFacts NbrIndep LshFacts Clu Tree CellFacts Mab FacadeCF FacadeArms MoreFacts NumLaws CFAlg Sim Extra QcInst OrderFacts ExpIrrel LinInv FacadeLin LpInv NbrInv CluTreeInv FacadeAll ToyFacts C09All C10All LinForget LinSim MatrixFacts GaussJordan LinSpec NbrIndepGen CluIndep C17Lin WarmIdem C14More LshScale TreeLeaf Rename PopSpec CopyFacts StatFacts CluBatch LinWarm.
 Import ListNotations.
 
 Theorem C09_predict_is_first_argmax_of_expectations_partial :
